@@ -330,8 +330,12 @@ static inline bool managed()
     return g_active && t_id >= 0;
 }
 
+static void clock_yield_point(); // below the scheduler
+
 static int64_t read_clock(bool wall)
 {
+    if (managed())
+        clock_yield_point();
     if (managed() || g_clock_tick)
         g_mono += 1 * US;
     int64_t v = wall ? wall_now() : g_mono;
@@ -833,6 +837,20 @@ int64_t abs_deadline(const struct timespec *ts, int clock_hint)
 
 } // namespace
 
+// A clock read is the one call every log call makes in the middle of its work (LogMessage samples
+// the time): making it a decision point opens windows that have no blocking call in them.
+static uint64_t g_clock_reads = 0;
+static void clock_yield_point()
+{
+    if (!S || S->cfg.clock_yield_pct <= 0)
+        return;
+    uint64_t h = S->cfg.seed ^ (0xC10CC10CC10Cull + g_clock_reads++);
+    if ((int)(splitmix64(h) % 100) >= S->cfg.clock_yield_pct)
+        return;
+    count(C_YIELD_CLOCK);
+    reschedule("clock-read");
+}
+
 bool active()
 {
     return g_active;
@@ -873,6 +891,7 @@ void begin(const SchedConfig &cfg)
     S->rr_left = 0;
     S->low_prio = 0;
     S->n_change = 0;
+    g_clock_reads = 0;
     if (cfg.strategy == S_PCT) {
         S->n_change = cfg.pct_depth > 8 ? 8 : cfg.pct_depth;
         for (int i = 0; i < S->n_change; i++)
@@ -1011,6 +1030,8 @@ const char *rel_path(const char *path)
     size_t n = F.cfg.root.size();
     if (n && strncmp(path, F.cfg.root.c_str(), n) == 0 && path[n] == '/')
         return path + n + 1;
+    if (n && strcmp(path, F.cfg.root.c_str()) == 0)
+        return ""; // the directory itself (an O_TMPFILE open): writes through it are stamped too
     return nullptr;
 }
 
@@ -1031,8 +1052,25 @@ void boundary(int call, const char *what, const char *p1, const char *p2, int or
 {
     count(C_FS_BOUNDARY);
     if (!before) {
+        // names of temporary files (QTemporaryFile/QSaveFile: "<name>.XXXXXX" with six random
+        // letters, seeded from the hardware RNG) must not enter the trace
+        char a[280], b[280];
+        auto norm = [](const char *p, char *out, size_t n) {
+            snprintf(out, n, "%s", p ? p : "");
+            size_t l = strlen(out);
+            if (l > 7 && out[l - 7] == '.') {
+                bool letters = true;
+                for (size_t i = l - 6; i < l; i++)
+                    if (!((out[i] >= 'a' && out[i] <= 'z') || (out[i] >= 'A' && out[i] <= 'Z')))
+                        letters = false;
+                if (letters)
+                    memcpy(out + l - 6, "<tmp6>", 6);
+            }
+        };
+        norm(p1, a, sizeof a);
+        norm(p2, b, sizeof b);
         char tmp[600];
-        int n = snprintf(tmp, sizeof tmp, "%s %s%s%s", what, p1 ? p1 : "", p2 ? " > " : "", p2 ? p2 : "");
+        int n = snprintf(tmp, sizeof tmp, "%s %s%s%s", what, a, p2 ? " > " : "", b);
         ev(EV_FS_OP, call, err, ordinal, tmp, (size_t)n);
     }
     if (F.cfg.on_boundary) {
